@@ -124,6 +124,18 @@ struct CheckedBackend {
     file: Box<dyn StorageBackend>,
     io_failed: AtomicBool,
     closed: AtomicBool,
+    // Calls that have passed check_failure() and have not returned from the backend yet.
+    // close() waits for them, so that no call reaches the backend after its close()
+    in_flight: AtomicUsize,
+}
+
+// Marks a call into the backend as in flight until dropped
+struct InFlight<'a>(&'a AtomicUsize);
+
+impl Drop for InFlight<'_> {
+    fn drop(&mut self) {
+        self.0.fetch_sub(1, Ordering::SeqCst);
+    }
 }
 
 // Covers the open paths that fail before there is a Database to drop. Drop cannot report the
@@ -142,7 +154,20 @@ impl CheckedBackend {
             file,
             io_failed: AtomicBool::new(false),
             closed: AtomicBool::new(false),
+            in_flight: AtomicUsize::new(0),
         }
+    }
+
+    // Registers a call into the backend, or refuses it if the backend has failed or is closed.
+    // Registering before the check is what lets close() wait for every call that got past it.
+    fn enter(&self) -> Result<InFlight<'_>> {
+        self.in_flight.fetch_add(1, Ordering::SeqCst);
+        let guard = InFlight(&self.in_flight);
+        if self.closed.load(Ordering::SeqCst) {
+            return Err(StorageError::DatabaseClosed);
+        }
+        self.check_failure()?;
+        Ok(guard)
     }
 
     fn check_failure(&self) -> Result<()> {
@@ -158,15 +183,20 @@ impl CheckedBackend {
     }
 
     fn close(&self) -> Result {
-        self.closed.store(true, Ordering::Release);
+        self.closed.store(true, Ordering::SeqCst);
         self.io_failed.store(true, Ordering::Release);
+        // A reader on another thread may be inside a backend call that it started before the
+        // flag was set; nothing may reach the backend once it has been closed
+        while self.in_flight.load(Ordering::SeqCst) != 0 {
+            core::hint::spin_loop();
+        }
         self.file.close()?;
 
         Ok(())
     }
 
     fn len(&self) -> Result<u64> {
-        self.check_failure()?;
+        let _in_flight = self.enter()?;
         let result = self.file.len();
         if result.is_err() {
             self.io_failed.store(true, Ordering::Release);
@@ -175,7 +205,7 @@ impl CheckedBackend {
     }
 
     fn read(&self, offset: u64, out: &mut [u8]) -> Result<()> {
-        self.check_failure()?;
+        let _in_flight = self.enter()?;
         let result = self.file.read(offset, out);
         if result.is_err() {
             self.io_failed.store(true, Ordering::Release);
@@ -184,7 +214,7 @@ impl CheckedBackend {
     }
 
     fn set_len(&self, len: u64) -> Result<()> {
-        self.check_failure()?;
+        let _in_flight = self.enter()?;
         let result = self.file.set_len(len);
         if result.is_err() {
             self.io_failed.store(true, Ordering::Release);
@@ -193,7 +223,7 @@ impl CheckedBackend {
     }
 
     fn sync_data(&self) -> Result<()> {
-        self.check_failure()?;
+        let _in_flight = self.enter()?;
         let result = self.file.sync_data();
         if result.is_err() {
             self.io_failed.store(true, Ordering::Release);
@@ -202,7 +232,7 @@ impl CheckedBackend {
     }
 
     fn write(&self, offset: u64, data: &[u8]) -> Result<()> {
-        self.check_failure()?;
+        let _in_flight = self.enter()?;
         let result = self.file.write(offset, data);
         if result.is_err() {
             self.io_failed.store(true, Ordering::Release);
@@ -214,7 +244,7 @@ impl CheckedBackend {
     // optimization depends on, latching would turn every later operation into a PreviousIo error
     // over data that nothing was waiting on.
     fn write_best_effort(&self, offset: u64, data: &[u8]) -> Result<()> {
-        self.check_failure()?;
+        let _in_flight = self.enter()?;
         self.file.write(offset, data).map_err(StorageError::from)
     }
 }
